@@ -18,7 +18,7 @@ META = {
                    "close_records_stored / max_records / received_payment_count derive from that count (or records.len()), config.max_records "
                    "and the payment counter; payment_received increments then flushes; with_config restores the counter from the file the "
                    "flush writes, before the storage scan; (5) a MaxRecords refusal shrinks the replication fetcher's acceptable distance and "
-                   "the fetcher is always told about the put. Not decided: numeric value of distances (C11), timing of the spawned flush.",
+                   "the fetcher is always told about the put. Also: once capacity was granted (a record may have been evicted) put_verified always spawns the write — the identical-content shortcut precedes the eviction. Not decided: numeric value of distances (C11), timing of the spawned flush.",
     "not_decided": ["numeric equality of the U256 distance key (see C11)", "durability/timing of the spawned quoting-metrics flush"],
 }
 
